@@ -399,9 +399,8 @@ Definition requestFromHeaders (lim : Z) (fs : list field) (tailerr : bool) (uri 
 (** strconv.Atoi on a 64-bit platform: optional sign, >= 1 decimal digits, value in int64. *)
 Definition atoi (s : bytes) : option Z :=
   let '(neg, d) := match s with
-                   | 45 :: r => (true, r)
-                   | 43 :: r => (false, r)
-                   | _ => (false, s)
+                   | c :: r => if c =? 45 then (true, r) else if c =? 43 then (false, r) else (false, s)
+                   | [] => (false, s)
                    end in
   if is_empty d then None
   else match digits_val 0 d with
